@@ -1205,3 +1205,31 @@ Proof. intros n. apply to_snake_idem_gen, trim_space_to_snake. Qed.
 
 Theorem trim_space_idem : forall s, trim_space (trim_space s) = trim_space s.
 Proof. intros s. destruct (trim_space_ok s) as [Hl Ht]. now apply ok_trim_space. Qed.
+
+(* ---- the name class of the laws vs. the class the j5s lexer accepts (round 3) ---------------------------------
+   The lexer accepts a unicode letter followed by letters / digits / '_'.  On bytes that is [ident] plus
+   bytes >= 128.  The laws above are stated for [ident] (ASCII); they cannot be stated for the byte class
+   "ident or >= 128" without a Unicode table, because that class contains encoded white space, which
+   strings.TrimSpace - the first step of every strcase function - removes: *)
+Definition ident8 (s : list N) : bool := forallb (fun c => plain c || (128 <=? c)) s.
+
+Theorem trim_space_ident8_refuted :
+  exists s, ident8 s = true /\ trim_space s <> s /\ to_snake (104 :: 105 :: s) <> 104 :: 105 :: s.
+Proof. exists [194; 160]. repeat split; vm_compute; discriminate. Qed.
+
+(* what does hold on that class: a name whose first and last bytes are ASCII identifier bytes (`naïve`,
+   `Crée`, `x日本Y`) is not trimmed, whatever lies between *)
+Theorem trim_space_ident8_ascii_ends : forall c s d,
+  plain c = true -> plain d = true -> trim_space (c :: s ++ [d]) = c :: s ++ [d].
+Proof.
+  intros c s d Hc Hd. apply trim_space_ends.
+  - intros c' r E. inversion E; subst c'. clear E. unfold plain, is_cap, is_low, is_num in Hc. unfold ascii_space.
+    repeat match type of Hc with (_ || _) = true => apply orb_true_iff in Hc; destruct Hc as [Hc|Hc] end;
+      repeat match type of Hc with (_ && _) = true => apply andb_true_iff in Hc; destruct Hc end;
+      split; try lia; repeat (apply orb_false_iff; split); try (apply N.eqb_neq); lia.
+  - intros c' r E. change (c :: s ++ [d]) with ((c :: s) ++ [d]) in E. rewrite rev_app_distr in E. cbn [rev app] in E.
+    inversion E; subst c'. clear E. unfold plain, is_cap, is_low, is_num in Hd. unfold ascii_space.
+    repeat match type of Hd with (_ || _) = true => apply orb_true_iff in Hd; destruct Hd as [Hd|Hd] end;
+      repeat match type of Hd with (_ && _) = true => apply andb_true_iff in Hd; destruct Hd end;
+      split; try lia; repeat (apply orb_false_iff; split); try (apply N.eqb_neq); lia.
+Qed.
